@@ -211,6 +211,7 @@ func (m *mon) checkTx(rng *rand.Rand, s *TxSpec, deep bool) (*txInfo, bool) {
 		r.Count("tx_embedded_ok", 1)
 	}
 	r.Eval(1)
+	m.nonCanonical(rng, s, ti)
 	// identity is independent of the signature list
 	variants := []*TxSpec{}
 	v := s.Clone()
@@ -301,6 +302,89 @@ func (m *mon) checkTx(rng *rand.Rand, s *TxSpec, deep bool) (*txInfo, bool) {
 	}
 	r.Eval(1)
 	return ti, true
+}
+
+// nonCanonical re-spells the length prefixes of the unsigned part (code length, attribute length)
+// with wider-than-minimal var-uints. The decoders accept such spellings (DESIGN §8); the property
+// says the identity is the double SHA-256 of *exactly* the transaction's unsigned bytes, i.e. of the
+// bytes that were received (and signed), not of a normalised re-encoding. If the input is refused
+// nothing is demanded.
+func (m *mon) nonCanonical(rng *rand.Rand, s *TxSpec, ti *txInfo) {
+	r := m.r
+	if !ti.layoutOK {
+		return
+	}
+	sigOff := pointOff(ti.pts, "tx.sig-count")
+	var lens []Point
+	for _, p := range ti.pts {
+		if p.Off < sigOff && p.Enc == "varuint" {
+			lens = append(lens, p)
+		}
+	}
+	value := func(p Point) uint64 {
+		if p.Name == "tx.code-len" {
+			return uint64(len(s.Code))
+		}
+		return 0 // attribute length
+	}
+	wider := func(p Point) int {
+		var ws []int
+		for _, w := range []int{3, 5, 9} {
+			if w > p.W {
+				ws = append(ws, w)
+			}
+		}
+		return ws[rng.Intn(len(ws))]
+	}
+	type respell struct {
+		pts []Point
+		ws  []int
+	}
+	var cases []respell
+	for _, p := range lens {
+		if p.W < 9 {
+			cases = append(cases, respell{[]Point{p}, []int{wider(p)}})
+		}
+	}
+	if len(lens) == 2 && lens[0].W < 9 && lens[1].W < 9 {
+		cases = append(cases, respell{lens, []int{wider(lens[0]), wider(lens[1])}})
+	}
+	for _, c := range cases {
+		// apply from the last field backwards so that earlier offsets stay valid
+		raw := append([]byte{}, ti.raw...)
+		grow := 0
+		name := ""
+		for i := len(c.pts) - 1; i >= 0; i-- {
+			p := c.pts[i]
+			enc, ok := VarUintW(value(p), c.ws[i])
+			if !ok {
+				continue
+			}
+			raw = append(append(append([]byte{}, raw[:p.Off]...), enc...), raw[p.Off+p.W:]...)
+			grow += len(enc) - p.W
+			name = fmt.Sprintf("%s:%d-byte", p.Name, c.ws[i]) + "," + name
+		}
+		unsigned := raw[:sigOff+grow]
+		r.Eval(1)
+		r.Count("noncanonical_tx_tried", 1)
+		r.Distinct("noncanonical", name, len(s.Sigs) > 0)
+		d, err := types.TransactionFromRawBytes(append([]byte{}, raw...))
+		if err != nil {
+			r.Count("noncanonical_tx_refused", 1)
+			continue
+		}
+		r.Count("noncanonical_tx_accepted", 1)
+		want := Dsha(unsigned)
+		if h := d.Hash(); [32]byte(h) != want {
+			r.Violation("tx-hash-not-dsha-of-unsigned:noncanonical", fmt.Sprintf("accepted transaction with non-minimal length prefixes (%s): Hash()=%x, sha256d of its %d unsigned bytes=%x", name, h[:], len(unsigned), want[:]), kit.Hex(raw))
+			continue
+		}
+		if !bytes.Equal(d.Raw, raw) {
+			r.Violation("tx-raw-mismatch:noncanonical", fmt.Sprintf("Raw has %d bytes, input had %d (%s)", len(d.Raw), len(raw), name), kit.Hex(raw))
+			continue
+		}
+		r.Count("noncanonical_tx_hash_confirmed", 1)
+	}
 }
 
 type hdrInfo struct {
@@ -809,7 +893,7 @@ func TestC02(t *testing.T) {
 	}
 	r := kit.Start(t, "C02", "exploration")
 	defer r.Finish()
-	r.Rule("generated transactions (payload 0-64 KiB, 0-3 signature entries of 1-4 keys over 6 key schemes), headers (0-7 bookkeepers/signatures), blocks (0-8 txs): round trip, identity = sha256d(unsigned part) computed by the checker, identity under signature / unsigned-field variants, retention (decoded objects re-compared after later decodes of other inputs), size limit, duplicate and wrong-root blocks; hostile bytes = truncations, bit flips, stamps, inserted var-uints, deleted ranges, garbage and every length/count field rewritten to {0,1,0xFC,0xFD,0xFE,0xFFFF,0x10000,2^32-1,2^32,2^63,2^64-1} in canonical and 9-byte form, each decoded in a child process under ulimit -v; distinct = object shape or (decoder, mutation class, outcome, panic site)")
+	r.Rule("generated transactions (payload 0-64 KiB, 0-3 signature entries of 1-4 keys over 6 key schemes), headers (0-7 bookkeepers/signatures), blocks (0-8 txs): round trip, identity = sha256d(unsigned part) computed by the checker, identity under signature / unsigned-field variants, accepted non-minimal var-uint spellings of the unsigned length fields (identity = sha256d of the bytes received), retention (decoded objects re-compared after later decodes of other inputs), size limit, duplicate and wrong-root blocks; hostile bytes = truncations, bit flips, stamps, inserted var-uints, deleted ranges, garbage and every length/count field rewritten to {0,1,0xFC,0xFD,0xFE,0xFFFF,0x10000,2^32-1,2^32,2^63,2^64-1} in canonical and 9-byte form, each decoded in a child process under ulimit -v; distinct = object shape or (decoder, mutation class, outcome, panic site)")
 	r.Assume("SHA-256 of the Go standard library is the reference hash; the transaction root reference is the checker's recursive model of C03")
 	r.Assume("a transaction of exactly MAX_TX_SIZE bytes is well-formed (must be accepted); larger ones must be refused")
 	r.Assume(fmt.Sprintf("hostile decodes run with the address space limited to %d KiB: a decoder that requests more memory than that for one input dies with a fatal out-of-memory error, which is reported like a panic", VLimitKB))
@@ -894,6 +978,7 @@ func TestC02(t *testing.T) {
 	r.Require("tx_accepted", nTx)
 	r.Require("tx_hash_confirmed", nTx)
 	r.Require("tx_embedded_ok", nTx)
+	r.Require("noncanonical_tx_tried", 2*nTx)
 	r.Require("tx_sig_variant_same_hash", nTx)
 	r.Require("tx_field_variant_new_hash", 5*nTx)
 	r.Require("header_accepted", nHdr)
